@@ -26,7 +26,9 @@ R5  idx = len(T) / T.append pairing; idx -> construct -> template -> generated
 R6  fixed generated names (match/groups/fragment) assigned before read;
     constructs whose generated variable name is referenced are emitted.
     (Placement of the *numbered* variables across levels is not decided.)
-R7  conflicts_with evaluated on the 3x3 kinds (multi x multi not judged).
+R7  conflicts_with evaluated on the 3x3 kinds (multi x multi not judged).  The (single, single) cell must be an
+    unconditional conflict: when it is not a constant of the kinds it is re-read with two abstract values (text of a
+    segment / a test on such text); an answer decided by the text is a violation, an unreadable one stays exit 2.
 R8  fast_return update region evaluated on all sibling sets of size <= 3;
     `return None` constructs only under the flag.
 R9  every value a construct's src() renders into a line of the generated
@@ -39,6 +41,12 @@ R3(d) also decides that the *numbered* generated variables (field_value_N, dict_
     along a root-to-leaf path: N is read from its creation site and must be len(<parameter stack>) + k (same k at every
     site of one name template; `enumerate(.., start=len(stack) + k)` with an unconditional push per iteration counts);
     an index restarted per node (literal, enumerate/range from a constant, a local counter) is a violation.
+R9  also reads a hand-written escape (`<attr>.replace(c, c')...`, one-character patterns) fed to a placeholder: the chain is
+    evaluated on {backslash, ', ", CR, LF, ordinary characters}; between quotes a class is handled iff quote+image+quote
+    denotes the character again (ast.literal_eval).  repr(<attr>) fed to a plain placeholder counts as !r.
+R18 each group of the field-expression pattern (fname / cname / argstr) is `<class>*` whose class excludes exactly the
+    delimiters that end the group (table FIELD_GROUP_EXCLUDES): text the pattern does not match is not rejected anywhere,
+    it silently becomes a literal segment.
 R13 built-in converters (BUILTIN table): __init__ + convert() are interpreted concretely on a probe set per converter
     and documented option set and compared with the tabled documented behaviour (conversion primitive, documented
     options, whitespace screening of int/float): an additional veto in front of the primitive, a dropped veto, another
@@ -990,10 +998,17 @@ def r7_conflict_table(run):
 
     E = H.Evaluator(f.qual, call_hook=hook)
     table = {}
+    unread: Dict[Tuple[str, str], str] = {}
     for a, ra in kinds.items():
         for b, rb in kinds.items():
             env = {params[0]: ra, '$other': rb}
-            kind, val = H.Interp(E, f.qual).block(f.node.body, env)
+            try:
+                kind, val = H.Interp(E, f.qual).block(f.node.body, env)
+            except UnknownIdiom as e:
+                # a branch this evaluator cannot decide: unknown for this cell (a judged cell then reads it further or fails closed)
+                table[(a, b)] = H.UNK
+                unread[(a, b)] = str(e)
+                continue
             if kind != 'return':
                 raise UnknownIdiom('%s: does not return on (%s, %s)' % (f.qual, a, b))
             table[(a, b)] = val
@@ -1035,7 +1050,7 @@ def r7_conflict_table(run):
         if v is H.UNK:
             if (a, b) == ('single', 'single') and value_dependent(a, b, want, why, W):
                 return
-            raise UnknownIdiom('%s: the (%s, %s) cell is value-dependent: %s' % (f.qual, a, b, 'not a constant'))
+            raise UnknownIdiom(unread.get((a, b)) or '%s: the (%s, %s) cell is value-dependent: %s' % (f.qual, a, b, 'not a constant'))
         run.check(H.truth(v) == want, 'conflicts_with(%s node, %s segment) is %s: %s' % (a, b, want, why), f,
                   'conflict-table[%s,%s] = %r' % (a, b, v), where=f.loc(), runtime_witness=W)
 
@@ -2815,6 +2830,9 @@ def r9_rendered_text(run):
                     if len(ws) == 1 and ws[0].strip(' \t') == '' and pos == 'bare':
                         continue   # indentation
                     raise UnknownIdiom('%s: %s' % (src.qual, short(a, 60)))
+                if conv is None and isinstance(a, ast.Call) and isinstance(a.func, ast.Name) and a.func.id in ('repr', 'ascii') \
+                        and len(a.args) == 1 and not a.keywords and p.resolve_callable(src, a.func) == 'builtins.' + a.func.id:
+                    conv, a = a.func.id[0], a.args[0]     # repr(x) fed to a plain placeholder: the same as {..!r}
                 if conv in ('r', 'a'):
                     if pos == 'quoted':
                         raise UnknownIdiom('%s: {%d!%s} between quotes in %r' % (src.qual, idx, conv, line))
@@ -3947,6 +3965,120 @@ def r17_payload_group(run):
         raise AnchorError('no helper of add_route stores a payload field (%s) on a node' % ', '.join(fields))
 
 
+# ---------------------------------------------------------------------------
+# R18 the field-expression pattern: what each group's character class excludes
+# ---------------------------------------------------------------------------
+
+# group of the field-expression pattern -> (characters its class must exclude -- exactly these, reason).  DESIGN 1.3 item 5.
+# The pattern is the ONE classifier of template text: the validator, CompiledRouterNode.__init__ and conflicts_with all call
+# it, and nothing rejects `{...}` text it does not match -- such text is silently a literal segment.  So a class that
+# excludes more than the delimiter that ends the group turns valid field expressions into literals; one that excludes less
+# lets the group run over its delimiter.
+FIELD_GROUP_EXCLUDES = {
+    'fname': ('}:', 'a field name ends at the converter separator `:` or at the closing brace'),
+    'cname': ('}(', 'a converter name ends at the argument list `(` or at the closing brace'),
+    'argstr': ('}', 'anything up to the closing brace belongs to the argument string: `)` is legal inside it (a strptime format, a nested '
+                    'call or tuple); the LAST `)` before the brace ends it, found by backtracking'),
+}
+_CLASS_ALPHABET = ''.join(chr(i) for i in range(32, 127)) + '\n\té'
+
+
+def _class_excluded(sre_c, item, where: str) -> Set[str]:
+    """Characters of _CLASS_ALPHABET that a one-character regex item (as parsed by the stdlib) does not accept."""
+    op, av = item
+    if op is sre_c.NOT_LITERAL:
+        return {c for c in _CLASS_ALPHABET if ord(c) == av}
+    if op is sre_c.LITERAL:
+        return {c for c in _CLASS_ALPHABET if ord(c) != av}
+    if op is sre_c.ANY:
+        return {'\n'}
+    if op is sre_c.IN:
+        negate = False
+        accepted: Set[str] = set()
+        for (o, a) in av:
+            if o is sre_c.NEGATE:
+                negate = True
+            elif o is sre_c.LITERAL:
+                accepted |= {c for c in _CLASS_ALPHABET if ord(c) == a}
+            elif o is sre_c.RANGE:
+                accepted |= {c for c in _CLASS_ALPHABET if a[0] <= ord(c) <= a[1]}
+            else:
+                raise UnknownIdiom('%s: character class item %s is not read' % (where, o))
+        return accepted if negate else set(_CLASS_ALPHABET) - accepted
+    raise UnknownIdiom('%s: %s is not a one-character item' % (where, op))
+
+
+def r18_field_pattern_classes(run):
+    """The field-expression pattern classifies template text for the validator
+    AND for CompiledRouterNode (field vs literal); no other check rejects
+    `{...}` text that the pattern does not match.  So the character class of
+    each of its groups must exclude exactly the delimiters that end the group
+    (FIELD_GROUP_EXCLUDES): read from the stdlib parse of the constant.
+    W: argstr class `[^})]*`: add_route('/archive/{when:dt("%Y(%m)")}') is
+    accepted as a LITERAL segment; find('/archive/2020(05)') -> None."""
+    import re
+    try:
+        from re import _parser as sre_parse, _constants as sre_c   # Python >= 3.11
+    except ImportError:   # pragma: no cover
+        import sre_parse
+        import sre_constants as sre_c
+    p = run.project
+    T = H.TemplateText.__new__(H.TemplateText)
+    T.p, T.mod, T.cfg_of = p, p.module(H.MODULE), cfg_of
+    T.node_init = p.func(NODE + '.__init__')
+    const, src = T._field_pattern()
+    validator = p.func(ROUTER + '._validate_template_segment')
+    where = '%s.%s' % (H.MODULE, const)
+    # premise of the clause: the validator finds its fields with the same constant (so unmatched text is not seen by it either)
+    if not any(isinstance(n, ast.Call) and isinstance(n.func, ast.Attribute) and n.func.attr in ('finditer', 'findall')
+               and isinstance(n.func.value, ast.Name) and n.func.value.id == const for n in walk_self(validator.node)):
+        raise UnknownIdiom('%s does not enumerate its fields with %s.finditer: the agreement between validator and classifier is not the '
+                           'character-class table' % (validator.qual, const))
+    try:
+        tree = sre_parse.parse(src)
+        by_num = {v: k for k, v in re.compile(src).groupindex.items()}
+    except Exception as e:
+        raise UnknownIdiom('%s does not compile: %s' % (where, e))
+    bodies: Dict[str, list] = {}
+
+    def walk(seq):
+        for op, av in seq:
+            if op is sre_c.SUBPATTERN:
+                if av[0] in by_num:
+                    bodies[by_num[av[0]]] = list(av[3])
+                walk(av[3])
+            elif op in (sre_c.MAX_REPEAT, sre_c.MIN_REPEAT):
+                walk(av[2])
+            elif op is sre_c.BRANCH:
+                for alt in av[1]:
+                    walk(alt)
+    walk(tree)
+    decl = T.mod.consts.get(const)
+    for g, (must, why) in sorted(FIELD_GROUP_EXCLUDES.items()):
+        if g not in bodies:
+            raise AnchorError('%s has no group %r' % (where, g))
+        body = bodies[g]
+        # the group is `<class>*`, possibly after a fixed literal prefix (`:` of the separator group is outside `cname`)
+        reps = [it for it in body if it[0] in (sre_c.MAX_REPEAT, sre_c.MIN_REPEAT)]
+        if len(reps) != 1 or len(body) != 1 or len(reps[0][1][2]) != 1:
+            raise UnknownIdiom('%s: group %r is not a repeat of one character class' % (where, g))
+        lo, hi, sub = reps[0][1]
+        if hi is not sre_c.MAXREPEAT:
+            raise UnknownIdiom('%s: group %r has a bounded repeat' % (where, g))
+        excluded = _class_excluded(sre_c, sub[0], where)
+        extra = sorted(excluded - set(must))
+        missing = sorted(set(must) - excluded)
+        run.check(not extra and not missing, 'group %r of the field-expression pattern accepts every character except %s (%s); template text '
+                  'the pattern does not match is not rejected, it silently becomes a literal segment' % (g, ' '.join(repr(c) for c in must), why),
+                  validator, '%s group %s excludes %s' % (const, g, ' '.join(repr(c) for c in sorted(excluded))),
+                  where=validator.loc(decl) if decl is not None else validator.loc(),
+                  witness=(['also excludes %s: a field expression with that character in its %s is not recognised' % (
+                      ' '.join(repr(c) for c in extra), g)] if extra else []) +
+                          (['does not exclude %s: the group runs over its delimiter' % ' '.join(repr(c) for c in missing)] if missing else []),
+                  runtime_witness='add_route(\'/archive/{when:dt("%Y(%m)")}\') is accepted as a literal segment: find("/archive/2020(05)") '
+                                  'is None and find(\'/archive/{when:dt("%Y(%m)")}\') answers the route with empty params')
+
+
 def check(run):
     run.assume('a rejection is an exception in the E5 summary of add_route (explicit raises, closed over resolved callees); '
                'other exceptions (IndexError, MemoryError, ...) are internal errors, not rejections')
@@ -3982,3 +4114,4 @@ def check(run):
     run.rule('R15', r15_multi_segment_flag, 'the multi-segment decision is the CONSUME_MULTIPLE_SEGMENTS attribute of the registered converter, whatever its type', floor=2)
     run.rule('R9', r9_rendered_text, 'template-derived text reaches a line of the generated source only validated, converted (!r), or as int / generated name', floor=28)
     run.rule('R17', r17_payload_group, 'the attributes of a node that find() answers with are stored together on every path of add_route that stores one of them', floor=6)
+    run.rule('R18', r18_field_pattern_classes, 'each group of the field-expression pattern excludes exactly the delimiters that end it (text the pattern does not match silently becomes a literal segment)', floor=3)
